@@ -289,7 +289,7 @@ def run_c10(prop, tier):
                       "via_cli": False,
                       # every category that has nodes in this schema, the derived ones (fields of structs, signal blocks of
                       # bindings, the union "type") included; the general verifier already has a check in some of them
-                      "vtest": {"category": rng.choice(["struct", "enum", "impl", "type", "device", "field", "field", "signal_block"]),
+                      "vtest": {"category": rng.choice(["struct", "enum", "impl", "type", "device", "field", "field", "signal_block", "service"]),
                                 "reject": rng.random() < 0.7,
                                 "payload": rng.choice(["fcp-error", "empty-str", "zero", "none", "empty-list", "false", "text", "seven"]),
                                 "position": rng.choice(["only", "after-pass", "before-pass"])}})
